@@ -54,3 +54,67 @@ Qed.
 (* without the guard the top 128 raw values reach 2^32, i.e. exactly 1.0: why the guard is needed *)
 Lemma r32_top_reaches_one : r32 4294967168 = 4294967296 /\ r32 4294967295 = 4294967296 /\ r32 4294967167 = 4294967040.
 Proof. repeat split; vm_compute; reflexivity. Qed.
+
+(* ---- i32_minmax(min, max) in [min, max) for all min < max with max - min <= 2^24 and all raw outputs ---- *)
+Lemma r32_small u : u <= 16777216 -> r32 u = u.
+Proof.
+  intros Hu. unfold r32. destruct (N.ltb_spec u 16777216); [reflexivity|].
+  assert (u = 16777216) as -> by lia. vm_compute. reflexivity.
+Qed.
+
+(* rounding to 24 significant bits moves a value by at most half a unit in the last place *)
+Lemma r32_upper P : 16777216 <= P -> r32 P <= P + 2 ^ (N.log2 P - 24).
+Proof.
+  intros HP. unfold r32. destruct (N.ltb_spec P 16777216); [lia|].
+  assert (HL : 24 <= N.log2 P) by (change 24 with (N.log2 16777216); apply N.log2_le_mono; assumption).
+  set (k := N.log2 P - 23). set (h := 2 ^ (N.log2 P - 24)).
+  assert (Hk : 2 ^ k = 2 * h).
+  { unfold k, h. replace (N.log2 P - 23) with (N.succ (N.log2 P - 24)) by lia. rewrite N.pow_succ_r'. reflexivity. }
+  replace (k - 1) with (N.log2 P - 24) by (unfold k; lia). fold h.
+  assert (Hh : 0 < h) by (unfold h; apply N.neq_0_lt_0; apply N.pow_nonzero; lia).
+  pose proof (N.div_mod P (2 ^ k) ltac:(rewrite Hk; lia)) as Hdm.
+  pose proof (N.mod_upper_bound P (2 ^ k) ltac:(rewrite Hk; lia)) as Hr.
+  remember (P / 2 ^ k) as q eqn:Eq_. remember (P mod 2 ^ k) as r eqn:Er_. clear Eq_ Er_.
+  rewrite Hk in *. remember (2 * h * q) as qe eqn:Eqe.
+  assert (Hq1 : q * (2 * h) = qe) by (subst qe; ring).
+  assert (Hq2 : (q + 1) * (2 * h) = qe + 2 * h) by (subst qe; ring).
+  rewrite Hq1, Hq2.
+  destruct (N.ltb_spec r h); [lia|]. destruct (N.ltb_spec h r); [lia|].
+  destruct (N.even q); [rewrite Hq1|rewrite Hq2]; lia.
+Qed.
+
+Lemma f01_num_le u : u < 4294967296 -> f01_num u <= 4294967040.
+Proof.
+  intros Hu. unfold f01_num. change F01_GUARD_ABOVE with 4294967167. change F01_GUARD_VALUE with 4294967167.
+  assert (G : forall v, v <= 4294967167 -> r32 v <= 4294967040).
+  { intros v Hv. destruct (N.ltb_spec v 16777216) as [Hs|Hb]; [rewrite r32_small by lia; lia|].
+    (* the result is a multiple of 2^(log2 v - 23) strictly below 2^32, hence at most 2^32 - 256 when log2 v = 31; smaller otherwise *)
+    pose proof (r32_below v Hv) as Hlt. pose proof (r32_upper v Hb) as Hup.
+    pose proof (log2_range v Hb ltac:(lia)) as HL.
+    destruct (N.eq_dec (N.log2 v) 31) as [E|E].
+    - rewrite (r32_case v 31 E Hb) in *. cbv zeta in *. change (2 ^ (31 - 23)) with 256 in *. change (2 ^ (31 - 23 - 1)) with 128 in *.
+      revert Hlt. destruct (N.ltb_spec (v mod 256) 128); [|destruct (N.ltb_spec 128 (v mod 256)); [|destruct (N.even (v / 256))]]; intros Hlt; lia.
+    - assert (N.log2 v <= 30) by lia.
+      assert (2 ^ (N.log2 v - 24) <= 64) by (change 64 with (2 ^ 6); apply N.pow_le_mono_r; lia).
+      pose proof (N.log2_spec v ltac:(lia)) as [_ Hhi].
+      assert (2 ^ N.succ (N.log2 v) <= 2 ^ 31) by (apply N.pow_le_mono_r; lia). change (2 ^ 31) with 2147483648 in *. lia. }
+  destruct (N.ltb_spec 4294967167 u); apply G; lia.
+Qed.
+
+Theorem i32_minmax_range (mn mx : Z) (u : N) : (mn < mx)%Z -> (mx - mn <= 16777216)%Z -> u < 4294967296 ->
+  (mn <= i32_minmax mn mx u < mx)%Z.
+Proof.
+  intros Hlt Hd Hu. unfold i32_minmax. rewrite f01_den_val.
+  set (d := Z.to_N (mx - mn)). assert (Hd0 : 0 < d <= 16777216) by (unfold d; lia).
+  rewrite (r32_small d) by lia. set (m := f01_num u). pose proof (f01_num_le u Hu) as Hm. fold m in Hm.
+  assert (Hq : r32 (d * m) / 4294967296 < d).
+  { apply N.div_lt_upper_bound; [lia|]. destruct (N.ltb_spec (d * m) 16777216) as [Hs|Hb].
+    - rewrite r32_small by lia. nia.
+    - pose proof (r32_upper (d * m) Hb) as Hup.
+      pose proof (N.log2_spec (d * m) ltac:(lia)) as [Hlo _].
+      assert (HL : 24 <= N.log2 (d * m)) by (change 24 with (N.log2 16777216); apply N.log2_le_mono; assumption).
+      assert (Hpow : 2 ^ N.log2 (d * m) = 16777216 * 2 ^ (N.log2 (d * m) - 24)).
+      { change 16777216 with (2 ^ 24). rewrite <- N.pow_add_r. f_equal. lia. }
+      nia. }
+  remember (r32 (d * m) / 4294967296) as t eqn:Et. clear Et. unfold d in Hq. lia.
+Qed.
